@@ -138,3 +138,4 @@ for _r in ("statistics request inside the signal failed", "wrong number of stati
 for _r in ("statistics of an undefined or non-FSR signal", "statistics with a non-positive increment succeeded",
            "statistics outside the signal succeeded"):
     REASON_PROP[_r] = "C10"
+REASON_PROP["copy of a properly closed file failed"] = "C17"
